@@ -63,7 +63,8 @@ pub fn run_case(_ctx: &Ctx, case: &Value, tag: usize, rep: &mut Report, mb: &mut
         let r = rng.below(10);
         if (r < 3 || !can_commit) && !toks.is_empty() {
             // rollback k (or reset)
-            let k = if r == 0 { toks.len() } else { 1 + rng.below(toks.len().min(4)) };
+            // after a committed EOS, undoing exactly that EOS is the interesting rollback (zero bytes, but the lexer was flushed)
+            let k = if r == 0 { toks.len() } else if toks.last() == Some(&w.eos) && rng.chance(1, 2) { 1 } else { 1 + rng.below(toks.len().min(4)) };
             let res = if r == 0 && rng.chance(1, 2) { m.reset() } else { m.rollback(k) };
             oplog.push(format!("rb{k}"));
             let repro = json!({"case": case, "tokens": toks, "ops": oplog});
@@ -154,7 +155,8 @@ pub fn run_case(_ctx: &Ctx, case: &Value, tag: usize, rep: &mut Report, mb: &mut
         } else if can_commit {
             let allowed = mask.unwrap();
             let non_eos: Vec<u32> = allowed.iter().copied().filter(|t| *t != w.eos).collect();
-            let t = if !non_eos.is_empty() && rng.chance(5, 6) { *rng.pick(&non_eos) } else { *rng.pick(&allowed) };
+            let has_eos = allowed.binary_search(&w.eos).is_ok();
+            let t = if has_eos && rng.chance(1, 4) { w.eos } else if !non_eos.is_empty() && rng.chance(5, 6) { *rng.pick(&non_eos) } else { *rng.pick(&allowed) };
             oplog.push(format!("c{t}"));
             if m.consume_token(t).is_err() {
                 rep.fail("oracle", "c12:commit-of-masked-token-failed", format!("step {step}: token {t} from the mask rejected"), json!({"case": case, "tokens": toks, "ops": oplog}));
